@@ -172,6 +172,11 @@ def run(tier, seed, replay):
         ("dot-and-dotdot", [F("conf/a.yaml")], [".", "..", "conf", "conf/."]),
         ("empty-pattern", [F("conf/a.yaml")], ["", "conf/a.yaml"]),
         ("many-dirs", [D("conf/d%02d" % i) for i in range(40)] + [F("conf/z.yaml")], ["conf/*"]),
+        # paths and patterns around and beyond the width of the report's rows (40 .. 300 characters), ASCII and multi-byte
+        ("long-path-49", [F("c/" + "a" * 42 + ".yaml")], ["c/*.yaml"]), ("long-path-50", [F("c/" + "a" * 43 + ".yaml")], ["c/*.yaml"]), ("long-path-51", [F("c/" + "a" * 44 + ".yaml")], ["c/*.yaml"]),
+        ("long-path-60", [F("c/" + "a" * 53 + ".yaml")], ["c/*.yaml"]), ("long-path-120", [F("c/" + "b" * 113 + ".yaml")], ["c/" + "b" * 113 + ".yaml"]), ("long-path-250", [F("d/" * 20 + "e" * 200 + ".yaml")], ["d/" * 20 + "*.yaml"]),
+        ("long-path-multibyte", [F("c/" + "\u00e9" * 60 + ".yaml")], ["c/*.yaml"]), ("long-pattern-no-match", [F("c/a.yaml")], ["c/" + "x" * 300 + "*.yaml", "c/a.yaml"]),
+        ("long-path-broken-yaml", [F("c/" + "a" * 70 + ".yaml", "a: [\n")], ["c/*.yaml"]), ("long-output-path", [F("c/a.yaml")], ["c/a.yaml"]),
         # symbolic links: dangling, to itself, in a loop, to a directory, to a file that is matched as well, to a file outside
         ("link-dangling-glob", [F("conf/a.yaml"), L("conf/b.yaml", "nowhere.yaml")], ["conf/*.yaml"]),
         ("link-dangling-literal", [F("conf/a.yaml"), L("conf/b.yaml", "nowhere.yaml")], ["conf/b.yaml"]),
